@@ -78,7 +78,8 @@ where
                 }
             }
             Cursor::EndAligned(cursor) => {
-                if cursor.unsigned_abs() > self.textlen() {
+                //(an end-aligned cursor is zero or negative; a positive one lies beyond the end)
+                if cursor > 0 || cursor.unsigned_abs() > self.textlen() {
                     Err(StamError::CursorOutOfBounds(
                         Cursor::EndAligned(cursor),
                         "TextResource::beginaligned_cursor(): end aligned cursor ends up before the beginning",
